@@ -363,12 +363,16 @@ def build_bins():
     into /verif/build (never into the repository's own target dir)"""
     tag = hashlib.sha1(REPO.encode()).hexdigest()[:8]
     td = os.path.join(BUILD, "bin-target-" + tag)
+    extra = {}
+    if os.environ.get("VERIF_COV"):
+        td += "-cov"            # development aid (bin/coverage): instrumented copies of the front ends
+        extra = {"RUSTFLAGS": "-C instrument-coverage"}
     with Lock("cargo-bin-" + tag):
         p = subprocess.run(
             ["cargo", "build", "--release", "--offline", "--locked", "--manifest-path",
              os.path.join(REPO, "Cargo.toml"), "--target-dir", td, "--bins"],
-            env=child_env({"CARGO_PROFILE_RELEASE_OPT_LEVEL": "1", "CARGO_PROFILE_RELEASE_DEBUG_ASSERTIONS": "true",
-                           "CARGO_PROFILE_RELEASE_OVERFLOW_CHECKS": "true"}),
+            env=child_env(dict({"CARGO_PROFILE_RELEASE_OPT_LEVEL": "1", "CARGO_PROFILE_RELEASE_DEBUG_ASSERTIONS": "true",
+                                "CARGO_PROFILE_RELEASE_OVERFLOW_CHECKS": "true"}, **extra)),
             stdout=subprocess.PIPE, stderr=subprocess.STDOUT, text=True,
         )
         if p.returncode != 0:
